@@ -319,7 +319,7 @@ func c12CLI(run *report.Run, env *Env, specs []c12spec, base map[string]map[stri
 	if run.Tier == "thorough" {
 		reps = 8
 	}
-	var n int64
+	var n, dirty int64
 	for i, s := range specs {
 		if baseOutcome[s.ID] != genrun.Success {
 			continue
@@ -360,6 +360,60 @@ func c12CLI(run *report.Run, env *Env, specs []c12spec, base map[string]map[stri
 			}
 			os.RemoveAll(dir)
 		}
+		// the output is a function of spec, config and options only - not of what an earlier run left in the
+		// output directory: generate into a directory that holds the output of another document, and of
+		// the same document in another physical form (re-indented: only white space differs)
+		if first == nil {
+			continue
+		}
+		var earlier [][]byte
+		if i > 0 {
+			earlier = append(earlier, specs[i-1].Spec)
+		}
+		var re bytes.Buffer
+		if json.Indent(&re, s.Spec, "", "    ") == nil && re.String() != string(s.Spec) {
+			earlier = append(earlier, re.Bytes())
+		}
+		for k, prev := range earlier {
+			dir := filepath.Join(env.Scratch, "cli", fmt.Sprintf("%d-dirty%d", i, k))
+			os.MkdirAll(dir, 0o755)
+			sf := filepath.Join(dir, "openapi.yaml")
+			cfg := filepath.Join(dir, "cfg.yaml")
+			if s.Cors {
+				os.WriteFile(cfg, []byte("cors:\n  enable: true\n"), 0o644)
+			}
+			args := []string{"-file", sf, "-out", filepath.Join(dir, "out"), "-package", "gen", "-config", cfg, fmt.Sprintf("-client=%v", s.Client), fmt.Sprintf("-donotedit=%v", s.DNE), "-spec-handler-name", "openapi.yaml"}
+			if s.BasePath != "" {
+				args = append(args, "-basepath", s.BasePath)
+			}
+			ok := true
+			for _, content := range [][]byte{prev, s.Spec} {
+				os.WriteFile(sf, content, 0o644)
+				c := exec.Command(bin, args...)
+				c.Env = append(os.Environ(), "TEMPLATE_DEBUG=")
+				if _, err := c.CombinedOutput(); err != nil {
+					ok = false // the earlier document does not generate under these options: nothing to compare
+					break
+				}
+			}
+			if ok {
+				n++
+				dirty++
+				if t := genrun.ReadTree(filepath.Join(dir, "out"), nil); treeKey(t) != treeKey(first) {
+					run.Violate(&report.Violation{Attrs: map[string]string{"class": "output-depends-on-directory-content", "earlier": []string{"other-document", "same-document-reindented"}[min(k+boolInt(i == 0), 1)]}, State: s.ID,
+						Observed: "generating into a directory that held the output of an earlier run wrote different bytes than generating into an empty one", Expected: "identical"})
+				}
+			}
+			os.RemoveAll(dir)
+		}
 	}
 	run.Cov["cli_runs"] = n
+	run.Cov["cli_runs_into_used_directories"] = dirty
+}
+
+func boolInt(b bool) int {
+	if b {
+		return 1
+	}
+	return 0
 }
